@@ -524,4 +524,329 @@ Section Inv5.
       apply (handle_smartsleep5 g (m_node m) nd); assumption.
     - intro H. inversion H; subst g1 rep. split; [exact I0|discriminate].
   Qed.
+  (* ---- OTA responses ---- *)
+  Lemma fw_lookup5 t x l f : Forall (fun e : (Z * Z) * fware => bytes_ok (fw_data (snd e)) = true) l ->
+    fw_lookup t x l = Some f -> bytes_ok (fw_data f) = true.
+  Proof.
+    intros F. induction l as [|[[t' x'] f'] l IH]; simpl; [discriminate|].
+    inversion F; subst. destruct (Z.eqb t t' && Z.eqb x x'); [intro H; inversion H; subst; assumption|auto].
+  Qed.
+
+  Lemma ota_get_fw5 o nid first req : fw5 o ->
+    fw5 (fst (ota_get_fw o nid first req)) /\
+    forall t x f, snd (ota_get_fw o nid first req) = Some (t, x, f) -> bytes_ok (fw_data f) = true.
+  Proof.
+    intro F. unfold ota_get_fw.
+    set (s1 := if first then o_requested o else o_unstarted o).
+    set (s2 := if first then o_unstarted o else o_started o).
+    replace (if first then (o_requested o, o_unstarted o) else (o_unstarted o, o_started o)) with (s1, s2)
+      by (subst s1 s2; destruct first; reflexivity).
+    cbv beta iota.
+    assert (CASE : forall id s1' s2',
+      let o' := if first then mkOta (o_fw o) s1' s2' (o_started o) else mkOta (o_fw o) (o_requested o) s1' s2' in
+      let r := (let '(t, x) := match req with Some r => r | None => id end in
+                match fw_lookup t x (o_fw o) with Some f => (o', Some (t, x, f)) | None => (o', None) end) in
+      fw5 (fst r) /\ forall t x f, snd r = Some (t, x, f) -> bytes_ok (fw_data f) = true).
+    { intros id s1' s2' o' r.
+      assert (F' : fw5 o') by (subst o'; destruct first; exact F).
+      subst r. destruct (match req with Some r => r | None => id end) as [t0 x0].
+      destruct (fw_lookup t0 x0 (o_fw o)) as [f|] eqn:L; simpl; (split; [exact F'|]); intros t x f' H;
+        [inversion H; subst; apply (fw_lookup5 _ _ _ _ F L)|discriminate]. }
+    destruct (zassoc nid s1) as [id|].
+    - apply CASE.
+    - destruct (zassoc nid s2) as [id|]; [apply CASE|]. simpl. split; [exact F|discriminate].
+  Qed.
+
+  Lemma respond_fw_config5 g m : cfgv v g -> Inv5 g -> wire_ok (m_payload m) = true -> vld m = true ->
+    m_type m = 4 -> h5 (respond_fw_config g m).
+  Proof.
+    intros C I5 W V Ty g1 rep. unfold respond_fw_config.
+    destruct (fw_hex_to_int (m_payload m) 5); [|intro H; inversion H; subst g1 rep; split; [exact I5|discriminate]].
+    assert (F : fw5 (g_ota g)) by (destruct I5 as (_&_&_&F); exact F).
+    destruct (ota_get_fw5 (g_ota g) (m_node m) true None F) as [F' R].
+    destruct (ota_get_fw (g_ota g) (m_node m) true None) as [o' r]. simpl in F', R.
+    assert (I' : Inv5 (set_ota g o')) by (apply Inv5_set_ota; assumption).
+    destruct r as [[[t x] f]|]; [|intro H; inversion H; subst g1 rep; split; [exact I'|discriminate]].
+    unfold stream_member. rewrite (cfgv_tab v g C), k_fw_config_response. cbn [of_option bind].
+    rewrite copy_spec by exact W. cbn [bind].
+    destruct (fw_config_payload t x f) as [p|e] eqn:P; cbn [bind]; [|discriminate].
+    intro H. inversion H; subst g1 rep. split; [exact I'|]. intros y E. inversion E; subst y.
+    unfold fw_config_payload in P. destruct (fw_int_to_hex_wire _ _ P) as (b & -> & B).
+    split; [apply wire_ok_hexlify; exact B|].
+    unfold set_payload. rewrite override_eta. cbn [ov r_node r_child r_type r_ack r_sub r_payload m_node m_child m_type m_ack m_sub].
+    rewrite Ty. rewrite vld_eta, Ty in V. apply (vld_stream_response _ _ _ _ _ _ _ V). left. reflexivity.
+  Qed.
+
+  Lemma respond_fw5 g m : cfgv v g -> Inv5 g -> wire_ok (m_payload m) = true -> vld m = true ->
+    m_type m = 4 -> h5 (respond_fw g m).
+  Proof.
+    intros C I5 W V Ty g1 rep. unfold respond_fw.
+    destruct (fw_hex_to_int (m_payload m) 3) as [ws|e];
+      [|intro H; inversion H; subst g1 rep; split; [exact I5|discriminate]].
+    destruct ws as [|rt [|rv [|rb [|x0 y0]]]];
+      try (intro H; inversion H; subst g1 rep; split; [exact I5|discriminate]).
+    assert (F : fw5 (g_ota g)) by (destruct I5 as (_&_&_&F); exact F).
+    destruct (ota_get_fw5 (g_ota g) (m_node m) false (Some (rt, rv)) F) as [F' R].
+    destruct (ota_get_fw (g_ota g) (m_node m) false (Some (rt, rv))) as [o' r]. simpl in F', R.
+    assert (I' : Inv5 (set_ota g o')) by (apply Inv5_set_ota; assumption).
+    destruct r as [[[t x] f]|]; [|intro H; inversion H; subst g1 rep; split; [exact I'|discriminate]].
+    unfold stream_member. rewrite (cfgv_tab v g C), k_fw_response. cbn [of_option bind].
+    rewrite copy_spec by exact W. cbn [bind].
+    destruct (fw_response_payload t x rb f) as [p|e] eqn:P; cbn [bind]; [|discriminate].
+    intro H. inversion H; subst g1 rep. split; [exact I'|]. intros y E. inversion E; subst y.
+    unfold fw_response_payload in P. destruct (fw_int_to_hex [t; x; rb]) as [h|e] eqn:HX; cbn [bind] in P; [|discriminate].
+    inversion P; subst p. destruct (fw_int_to_hex_wire _ _ HX) as (b & -> & B).
+    split.
+    - cbn [set_payload m_payload]. rewrite <- hexlify_app. apply wire_ok_hexlify. rewrite bytes_ok_app, B.
+      apply fw_block_bytes. apply (R t x f eq_refl).
+    - unfold set_payload. rewrite override_eta. cbn [ov r_node r_child r_type r_ack r_sub r_payload m_node m_child m_type m_ack m_sub].
+      rewrite Ty. rewrite vld_eta, Ty in V. apply (vld_stream_response _ _ _ _ _ _ _ V). right. reflexivity.
+  Qed.
+
+  Lemma handle_stream5 g m : cfgv v g -> Inv orc g -> Inv5 g -> wire_ok (m_payload m) = true -> vld m = true ->
+    m_type m = 4 -> h5 (handle_stream orc clock g m).
+  Proof.
+    intros C I I5 W V Ty g1 rep. unfold handle_stream. pose proof (vld_node_range m V) as RN.
+    destruct (is_sensor g (m_node m) None) as [[g0 b]|e] eqn:IS; cbn [bind]; [|discriminate].
+    assert (I0 : Inv5 g0) by (apply (is_sensor5 g _ _ _ _ C I I5 (fun _ _ => RN) IS)).
+    destruct (is_sensor_eff orc clock v _ _ _ _ _ C I IS) as (B & _ & GG).
+    destruct b; cbn [negb]; [|intro H; inversion H; subst g1 rep; split; [exact I0|discriminate]].
+    specialize (GG eq_refl). subst g0.
+    assert (RS : between 0 (max_sub v 4) (m_sub m) = true).
+    { rewrite vld_eta, vld_spec, Ty in V. tauto. }
+    rewrite (cfgv_tab v g C), Ty, (stream_resolution v _ RS). unfold stream_expected.
+    destruct (m_sub m =? 0).
+    - unfold run_leaf. destruct (respond_fw_config g m) as [[g2 resp]|e] eqn:R; cbn [bind]; [|discriminate].
+      destruct (respond_fw_config5 g m C I5 W V Ty g2 resp R) as [I2 G2].
+      intro H. inversion H; subst g1 rep. split; [apply Inv5_alert; exact I2|exact G2].
+    - destruct (m_sub m =? 2).
+      + unfold run_leaf. destruct (respond_fw g m) as [[g2 resp]|e] eqn:R; cbn [bind]; [|discriminate].
+        destruct (respond_fw5 g m C I5 W V Ty g2 resp R) as [I2 G2].
+        intro H. inversion H; subst g1 rep. split; [apply Inv5_alert; exact I2|exact G2].
+      + intro H. inversion H; subst g1 rep. split; [exact I5|discriminate].
+  Qed.
+
+  (* ---- internal ---- *)
+  Lemma handle_internal5 g m : cfgv v g -> Inv orc g -> Inv5 g -> wire_ok (m_payload m) = true -> vld m = true ->
+    m_type m = 3 -> h5 (handle_internal orc clock g m).
+  Proof.
+    intros C I I5 W V Ty. unfold handle_internal. rewrite (cfgv_tab v g C), Ty.
+    pose proof (vld_node_range m V) as RN.
+    assert (V3 : vld (mkMsg (m_node m) (m_child m) 3 (m_ack m) (m_sub m) (m_payload m)) = true)
+      by (rewrite <- Ty, <- vld_eta; exact V).
+    assert (B : between 0 (max_sub v 3) (m_sub m) = true) by (apply vld_spec in V3; tauto).
+    pose proof (internal_resolution v _ B) as A.
+    pose proof (action_sub v (m_sub m) _ eq_refl) as AS.
+    destruct (sub_handler (tab_of v) 3 (m_sub m)) as [h|]; [destruct h|]; cbn [act_of] in A; try discriminate A;
+      injection A as A; rewrite <- A in AS; unfold run_leaf.
+    - apply handle_id_request5; assumption.
+    - (* config *) intros g1 rep. unfold handle_config. rewrite copy_spec by exact W. cbn [bind].
+      intro H. inversion H; subst g1 rep. split; [exact I5|]. intros x E. inversion E; subst x.
+      rewrite override_eta. cbn [ov r_node r_child r_type r_ack r_sub r_payload]. rewrite Ty, AS.
+      rewrite (internal_child _ _ _ _ _ V3) by lia. apply good_config. exact RN.
+    - (* time *) intros g1 rep. unfold handle_time. rewrite copy_spec by exact W. cbn [bind].
+      intro H. inversion H; subst g1 rep. split; [exact I5|]. intros x E. inversion E; subst x.
+      rewrite override_eta. cbn [ov r_node r_child r_type r_ack r_sub r_payload]. rewrite Ty, AS.
+      rewrite (internal_child _ _ _ _ _ V3) by lia. apply good_time. exact RN.
+    - apply node_attr5; try assumption. intros; repeat split; reflexivity.
+    - apply node_attr5; try assumption. intros; repeat split; reflexivity.
+    - apply node_attr5; try assumption. intros; repeat split; reflexivity.
+    - intros g1 rep H. inversion H; subst g1 rep. split; [exact I5|discriminate].
+    - intros g1 rep. unfold handle_gateway_ready. intro H. inversion H; subst g1 rep.
+      split; [apply Inv5_alert; exact I5|discriminate].
+    - (* gateway ready >= 2.0 *) destruct AS as [AS GE]. intros g1 rep. unfold handle_gateway_ready_20, internal_member.
+      rewrite (cfgv_tab v g C), k_discover by (rewrite ge20_eq; exact GE). cbn [of_option bind].
+      rewrite copy_spec by exact W. cbn [bind]. intro H. inversion H; subst g1 rep.
+      split; [apply Inv5_alert; exact I5|]. intros x E. inversion E; subst x.
+      rewrite override_eta. cbn [ov r_node r_child r_type r_ack r_sub r_payload]. rewrite Ty.
+      rewrite (internal_child _ _ _ _ _ V3) by lia. apply (good_discover GE).
+    - apply handle_heartbeat5; assumption.
+    - (* discover response *) intros g1 rep. unfold handle_discover_response.
+      destruct (is_sensor g (m_node m) None) as [[g0 b]|e] eqn:IS; cbn [bind]; [|discriminate].
+      intro H. inversion H; subst g1 rep. split; [|discriminate]. cbn [fst].
+      apply (is_sensor5 g _ _ _ _ C I I5 (fun _ _ => RN) IS).
+    - apply node_attr5; try assumption. intros; repeat split; reflexivity.
+    - apply handle_pre_sleep5; assumption.
+    - intros g1 rep H. inversion H; subst g1 rep. split; [exact I5|discriminate].
+  Qed.
+
+  (* ---- the dispatcher ---- *)
+  Theorem logic5 g l g' r : cfgv v g -> Inv orc g -> Inv5 g -> logic orc clock g l = Ok (g', r) ->
+    Inv5 g' /\ forall s, r = Some s -> good s.
+  Proof.
+    intros C I I5. unfold logic.
+    destruct (decode l) as [m|] eqn:D; [|intro H; inversion H; subst; split; [exact I5|discriminate]].
+    pose proof (decoded_payload_wire_ok _ _ D) as W.
+    rewrite (gvalidate_vld g m C).
+    destruct (vld m) eqn:V; cbn [negb]; [|intro H; inversion H; subst; split; [exact I5|discriminate]].
+    destruct (validated_ranges orc v m V) as (RN & RT & _).
+    destruct (k_type_handlers v) as (T0 & T1 & T2 & T3 & T4).
+    rewrite (cfgv_tab v g C).
+    destruct (type_handler (tab_of v) (m_type m)) as [h|] eqn:TH; [|discriminate].
+    destruct (run_handler orc clock h g m) as [[g1 rep]|e] eqn:RH; cbn [bind]; [|discriminate].
+    destruct (dispatch_inv orc clock v g m h g1 rep C I W RT TH RH) as [I1 C1].
+    assert (H5 : h5 (run_handler orc clock h g m)).
+    { assert (E : m_type m = 0 \/ m_type m = 1 \/ m_type m = 2 \/ m_type m = 3 \/ m_type m = 4) by lia.
+      destruct E as [E|[E|[E|[E|E]]]]; rewrite E in TH; rewrite ?T0, ?T1, ?T2, ?T3, ?T4 in TH;
+        inversion TH; subst h; unfold run_handler.
+      - apply handle_presentation5; assumption.
+      - apply handle_set5; assumption.
+      - apply handle_req5; assumption.
+      - apply handle_internal5; assumption.
+      - apply handle_stream5; assumption. }
+    destruct (H5 g1 rep RH) as [I51 GR].
+    destruct rep as [x|]; cbn [route_opt].
+    - destruct (route5 g1 x (cfgv_ext v g g1 C1 C) I1 I51 (GR x eq_refl)) as [A Bx].
+      destruct (route g1 x) as [g2 routed]. simpl in A, Bx.
+      intro H. inversion H; subst g' r. split; [exact A|].
+      intros s E. destruct routed as [x'|]; [|discriminate]. inversion E; subst s.
+      rewrite (Bx x' eq_refl). exists x. split; [reflexivity|apply GR; reflexivity].
+    - intro H. inversion H; subst g' r. split; [exact I51|discriminate].
+  Qed.
+
+  Lemma recv5 g l : cfgv v g -> Inv orc g -> Inv5 g -> Inv5 (recv orc clock g l).
+  Proof.
+    intros C I I5. unfold recv. destruct (cf_async (g_cf g)).
+    - destruct (logic orc clock g l) as [[g1 [r|]]|e] eqn:L.
+      + destruct (logic5 g l g1 (Some r) C I I5 L) as [A B]. apply Inv5_send; [exact A|apply B; reflexivity].
+      + destruct (logic5 g l g1 None C I I5 L) as [A _]. exact A.
+      + apply Inv5_emit; [exact I5|exact Logic.I].
+    - apply Inv5_set_jobs; [exact I5|]. destruct I5 as (_ & J & _). apply Forall_app. split; [exact J|].
+      constructor; [exact Logic.I|constructor].
+  Qed.
+
+  Lemma pump5 g : cfgv v g -> Inv orc g -> Inv5 g -> Inv5 (pump orc clock g).
+  Proof.
+    intros C I I5. unfold pump. destruct (g_jobs g) as [|[l|l] r] eqn:J; [exact I5| |].
+    - assert (J5 : Forall job5 r) by (destruct I5 as (_ & JJ & _); rewrite J in JJ; inversion JJ; assumption).
+      assert (I0 : Inv5 (set_jobs g r)) by (apply Inv5_set_jobs; assumption).
+      assert (IG : Inv orc (set_jobs g r)) by (apply Inv_set_jobs; exact I).
+      assert (CG : cfgv v (set_jobs g r)) by exact C.
+      destruct (logic orc clock (set_jobs g r) l) as [[g1 [rp|]]|e] eqn:L.
+      + destruct (logic5 _ l g1 (Some rp) CG IG I0 L) as [A B]. apply Inv5_send; [exact A|apply B; reflexivity].
+      + destruct (logic5 _ l g1 None CG IG I0 L) as [A _]. exact A.
+      + apply Inv5_emit; [exact I0|exact Logic.I].
+    - assert (JJ : Forall job5 (g_jobs g)) by (destruct I5 as (_ & JJ & _); exact JJ).
+      rewrite J in JJ. inversion JJ as [|? ? GL JR]; subst.
+      apply Inv5_send; [|exact GL]. apply Inv5_set_jobs; [exact I5|exact JR].
+  Qed.
+
+  (* ---- controller calls ---- *)
+  Definition carriable (x : pyval) : Prop := wire_ok (py_str x) = true.
+
+  Lemma set_child_value5 g sid cid vt x mt a : cfgv v g -> Inv orc g -> Inv5 g -> carriable x ->
+    (v_ge20 v = true -> zhas sid (g_sensors g) = false -> 0 <= sid <= 255) ->
+    forall g', set_child_value orc g sid cid vt x mt a = Ok g' -> Inv5 g'.
+  Proof.
+    intros C I I5 CX R g'. unfold set_child_value.
+    destruct (is_sensor g sid (Some cid)) as [[g0 b]|e] eqn:IS; cbn [bind]; [|discriminate].
+    assert (I0 : Inv5 g0) by (apply (is_sensor5 g _ _ _ _ C I I5 R IS)).
+    destruct (is_sensor_eff orc clock v _ _ _ _ _ C I IS) as (B & _ & GG).
+    destruct b; cbn [negb]; [|intro H; inversion H; subst g'; exact I0].
+    specialize (GG eq_refl). subst g0. symmetry in B. destruct (guard_get clock _ _ _ B) as (nd & G & _). rewrite G.
+    pose proof (get_node_ok orc g _ _ I G) as [K _]. simpl in K.
+    destruct (sleeping nd).
+    - destruct (create_set_message orc g (n_id nd) cid vt x None None) as [m0|e]; cbn [bind]; [|discriminate].
+      destruct (zassoc cid (n_new nd)) as [dv|] eqn:D; [|discriminate].
+      destruct (validate_child_state orc nd cid vt x); cbn [bind]; [|discriminate].
+      destruct (vt_int vt) as [vti|]; [|discriminate].
+      intro H. inversion H; subst g'. apply Inv5_put_node; [exact I5|].
+      change (n_id (with_new nd (zset cid (zset vti (Some x) dv) (n_new nd)))) with (n_id nd). rewrite K.
+      destruct (get_node5 g _ _ I5 G) as (RR & CH & NW & Q). simpl in RR, CH, NW, Q.
+      split; [exact RR|]. split; [exact CH|]. split; [|exact Q]. simpl.
+      apply Forall_zset; [exact NW|]. simpl. apply Forall_zset; [|exact CX].
+      pose proof (zassoc_Forall _ _ _ _ NW D) as X. exact X.
+    - destruct (create_set_message orc g (n_id nd) cid vt x mt a) as [m0|e] eqn:CM; cbn [bind]; [|discriminate].
+      intro H. inversion H; subst g'. apply Inv5_add_job; [exact I5|].
+      unfold create_set_message in CM. destruct (vt_int vt) as [vti|]; [|discriminate].
+      match type of CM with (if gvalidate orc g ?mm then _ else _) = _ =>
+        destruct (gvalidate orc g mm) eqn:GV; inversion CM; subst m0 end.
+      eexists. split; [reflexivity|]. split; [exact CX|]. rewrite <- (gvalidate_vld g _ C). exact GV.
+  Qed.
+
+  Lemma fw_store5 t x f l : Forall (fun e : (Z * Z) * fware => bytes_ok (fw_data (snd e)) = true) l ->
+    bytes_ok (fw_data f) = true ->
+    Forall (fun e : (Z * Z) * fware => bytes_ok (fw_data (snd e)) = true) (fw_store t x f l).
+  Proof.
+    intros F B. induction l as [|[[t' x'] f'] l IH]; simpl; [constructor; [exact B|constructor]|].
+    inversion F; subst. destruct (Z.eqb t t' && Z.eqb x x'); constructor; try assumption. apply IH. assumption.
+  Qed.
+
+  Definition Keys (g : gw) : Prop := Forall (fun kn : Z * node => n_id (snd kn) = fst kn) (g_sensors g).
+
+  Lemma Inv_Keys g : Inv orc g -> Keys g.
+  Proof. intros [S _]. unfold Keys. eapply Forall_impl; [|exact S]. intros kn [K _]. exact K. Qed.
+
+  Lemma update_one5 t x g nid : Keys g -> Inv5 g -> Keys (update_one t x g nid) /\ Inv5 (update_one t x g nid).
+  Proof.
+    intros KS I5. unfold update_one. destruct (get_node g nid) as [nd|] eqn:G; [|split; assumption].
+    pose proof (zassoc_Forall _ _ _ _ KS G) as K. simpl in K.
+    split.
+    - unfold Keys. simpl. apply Forall_zset; [exact KS|reflexivity].
+    - apply Inv5_put_node.
+      + destruct I5 as (A & B & C & D). repeat split; assumption.
+      + change (n_id (with_reboot nd true)) with (n_id nd). rewrite K.
+        apply (node5_same nid nd); try reflexivity. apply (get_node5 g); assumption.
+  Qed.
+
+  Lemma update_fold5 t x nids g : Keys g -> Inv5 g -> Inv5 (fold_left (update_one t x) nids g).
+  Proof.
+    revert g. induction nids as [|nid r IH]; intros g KS I5; simpl; [exact I5|].
+    destruct (update_one5 t x g nid KS I5) as [K1 I1]. apply IH; assumption.
+  Qed.
+
+  Lemma update_fw5 g nids fwt fwv bin : Inv orc g -> Inv5 g -> image_ok bin ->
+    forall g', update_fw g nids fwt fwv bin = Ok g' -> Inv5 g'.
+  Proof.
+    intros I I5 IM g'. unfold update_fw.
+    destruct bin as [[|b0 br]|] eqn:EB; [intro H; inversion H; subst g'; exact I5| |].
+    all: destruct (vt_int fwt) as [t|]; [|intro H; inversion H; subst g'; exact I5];
+         destruct (vt_int fwv) as [x|]; [|intro H; inversion H; subst g'; exact I5];
+         destruct (negb ((0 <=? t) && (t <=? 65535)) || negb ((0 <=? x) && (x <=? 65535)));
+         [intro H; inversion H; subst g'; exact I5|].
+    all: match goal with |- context [fw_lookup _ _ ?fwl] => set (FWL := fwl) end.
+    all: assert (FO : Forall (fun e : (Z * Z) * fware => bytes_ok (fw_data (snd e)) = true) FWL).
+    1: { subst FWL. apply fw_store5; [destruct I5 as (_&_&_&F); exact F|]. destruct IM as [BO _].
+         apply prepare_fw_bytes. exact BO. }
+    2: { subst FWL. destruct I5 as (_&_&_&F); exact F. }
+    all: set (g0 := set_ota g (mkOta FWL (o_requested (g_ota g)) (o_unstarted (g_ota g)) (o_started (g_ota g))));
+         assert (I0 : Inv5 g0) by (apply Inv5_set_ota; [exact I5|exact FO]);
+         assert (K0 : Keys g0) by (apply (Inv_Keys g I));
+         destruct (fw_lookup t x FWL); [|intro H; inversion H; subst g'; exact I0].
+    all: intro H; inversion H; subst g';
+         change (Inv5 (fold_left (update_one t x) nids g0)); apply update_fold5; assumption.
+  Qed.
+
+  (* ---- steps and reachable states ---- *)
+  Definition op_ok5 (o : op) : Prop :=
+    match o with
+    | SetChild sid _ _ x _ _ => carriable x /\ (v_ge20 v = true -> 0 <= sid <= 255)
+    | UpdateFw _ _ _ bin => image_ok bin
+    | _ => True
+    end.
+
+  Lemma op_ok5_op_ok o : op_ok5 o -> op_ok o.
+  Proof. destruct o; simpl; tauto. Qed.
+
+  Lemma step5 g o : cfgv v g -> Inv orc g -> Inv5 g -> op_ok5 o -> Inv5 (step orc clock g o).
+  Proof.
+    intros C I I5 O. destruct o as [l| |s c vt x mt a|ns t x b|b]; simpl.
+    - apply recv5; assumption.
+    - apply pump5; assumption.
+    - destruct O as [CX R].
+      destruct (set_child_value orc g s c vt x mt a) as [g'|e] eqn:E; [|apply Inv5_emit; [exact I5|exact Logic.I]].
+      apply (set_child_value5 g s c vt x mt a C I I5 CX (fun G _ => R G) g' E).
+    - destruct (update_fw g ns t x b) as [g'|e] eqn:E; [|apply Inv5_emit; [exact I5|exact Logic.I]].
+      apply (update_fw5 g ns t x b I I5 O g' E).
+    - destruct I5 as (A & B & C5 & D). repeat split; assumption.
+  Qed.
+
+  Lemma run5 ops g : cfgv v g -> Inv orc g -> Inv5 g -> Forall op_ok5 ops ->
+    Inv5 (run orc clock g ops) /\ Inv orc (run orc clock g ops) /\ cfgv v (run orc clock g ops).
+  Proof.
+    revert g. induction ops as [|o ops IH]; intros g C I I5 F; [split; [exact I5|split; [exact I|exact C]]|].
+    inversion F; subst. unfold run. simpl.
+    destruct (step_ok orc clock g o (cfgv_cfg v g C) I (op_ok5_op_ok o H1)) as [I1 C1].
+    apply IH; [apply (cfgv_ext v g); assumption|exact I1|apply step5; assumption|assumption].
+  Qed.
 End Inv5.
